@@ -237,6 +237,63 @@ SpecTails(d) == LET F[r \in 0..Len(d)] == IF r = Len(d) THEN 0 ELSE F[r + 1] + d
 \* every unfolding of a matching tensor has the same tails (theorem MatchingOK)
 ExactTails(c, t) == [j \in 1..NUnf(c) |-> [r \in 1..(Len(t.vals) + 1) |-> SpecTails(Mags(t))[r] * Scale]]
 
+\* ------------------------------------------------------------------ graded spectra (rotated matching tensors)
+\* t = [op |-> "rotated", shape, idx, vals, exps]: the matching tensor with entries vals[q] * 2^exps[q] at idx[q],
+\* multiplied along every mode by an orthogonal matrix (drawn by the harness).  Orthogonal mode products leave
+\* the singular values of EVERY unfolding unchanged, so the spectra are still the magnitudes -- now spread
+\* over levels 1, 2^-20 (~1e-6), 2^-30 (~1e-9) -- and the tensor is dense (its Gram matrices are not diagonal).
+\* Squared quantities are kept as one integer coefficient per level:  v = sum_l v[l] * 4^l.
+Levels == <<0, -20, -30>>                 \* descending
+LevelSet == {Levels[k] : k \in 1..Len(Levels)}
+
+ValidRotated(t) ==
+    /\ ValidMatching([shape |-> t.shape, idx |-> t.idx, vals |-> t.vals])
+    /\ Len(t.exps) = Len(t.vals) /\ \A q \in 1..Len(t.exps) : t.exps[q] \in LevelSet
+    /\ \E q \in 1..Len(t.exps) : t.exps[q] = 0
+
+\* the spectrum as pairs <<mantissa, level>>, largest first (levels are >= 2^10 apart, mantissas <= 5)
+RECURSIVE SortPairs(_)
+SortPairs(S) == IF S = {} THEN <<>>
+                ELSE LET x == CHOOSE a \in S : \A b \in S : a[3] > b[3] \/ (a[3] = b[3] /\ (a[2] > b[2] \/ (a[2] = b[2] /\ a[1] <= b[1])))
+                     IN  <<x>> \o SortPairs(S \ {x})
+GradedSpectrum(t) == LET P == SortPairs({<<q, Abs(t.vals[q]), t.exps[q]>> : q \in 1..Len(t.vals)})
+                     IN  [k \in 1..Len(P) |-> <<P[k][2], P[k][3]>>]
+
+\* symeig_svd is DEFINED through the Gram matrix, which squares the condition number: a singular direction
+\* s_k is resolved with an error of eps * s_1 / s_k relative to ||X|| (1e-10 already at the level 2^-20, lost
+\* below sqrt(eps) ~ 1.5e-8).  That method is obliged on ungraded spectra only.
+GradedOK(svd, t) == svd = "symeig_svd" => \A q \in 1..Len(t.exps) : t.exps[q] = 0
+
+ZeroVec == [l \in LevelSet |-> 0]
+\* Tail(r) of a graded spectrum d, per level
+TailVec(d, r) == [l \in LevelSet |->
+                   LET F[k \in 0..Len(d)] == IF k = 0 THEN 0
+                                              ELSE F[k - 1] + (IF k > r /\ d[k][2] = l THEN d[k][1] * d[k][1] ELSE 0)
+                   IN  F[Len(d)]]
+AddVec(v, w) == [l \in LevelSet |-> v[l] + w[l]]
+MinLowerRank(c) == LET m[j \in 0..NUnf(c)] == IF j = 0 THEN 1000 ELSE MinOf(m[j - 1], LowerRank(c, j)) IN m[NUnf(c)]
+\* all unfoldings share the spectrum: the largest single tail is the tail at the smallest rank
+LowerVec(c, d) == IF NUnf(c) = 0 THEN ZeroVec ELSE TailVec(d, MinLowerRank(c))
+UpperVec(c, d) == LET S[j \in 0..NUnf(c)] == IF j = 0 THEN ZeroVec ELSE AddVec(S[j - 1], TailVec(d, UpperRank(c, j))) IN S[NUnf(c)]
+IsZeroVec(v) == \A l \in LevelSet : v[l] = 0
+LeadLevel(v) == CHOOSE l \in LevelSet : v[l] # 0 /\ \A m \in LevelSet : v[m] # 0 => m <= l        \* only for non-zero v
+\* v expressed in units of 4^L / Scale (levels above L must be empty, levels 2^20 or more below contribute nothing)
+Pow4Gap(g) == IF g = 0 THEN 1 ELSE IF g = 10 THEN 1048576 ELSE 0
+AtLevel(v, L) == LET ls == Levels
+                     F[k \in 0..Len(ls)] == IF k = 0 THEN 0
+                         ELSE F[k - 1] + (IF ls[k] > L \/ Pow4Gap(L - ls[k]) = 0 THEN 0 ELSE (v[ls[k]] * Scale) \div Pow4Gap(L - ls[k]))
+                 IN  F[Len(ls)]
+LevelIndex(L) == CHOOSE k \in 1..Len(Levels) : Levels[k] = L
+\* "at most the bound" holds for the error, i.e. up to the rounding error tau = 1e-13 ||X|| of double precision:
+\* err^2 <= B + 2 sqrt(B) tau + tau^2.  Relative to a bound at level 2^l that is 2 tau / 2^l: nothing at level 0,
+\* < 1e-5 at 2^-20, < 1e-2 at 2^-30 (||X|| <= 10).  (A level 2^-40 would drown in it and is not used.)
+RelSlackDiv(L) == IF L = 0 THEN 0 ELSE IF L = -20 THEN 100000 ELSE 100
+LevelSlack(J, b, L) == J + 5 + (IF RelSlackDiv(L) = 0 THEN 0 ELSE b \div RelSlackDiv(L))
+
+\* shapes of the graded tier: a short first mode in front of a long tail (first unfolding >= 32 x wider than
+\* tall, more rows than non-zeros), in every position for the ring, and a tensorised matrix of that kind
+GradedShapes == { <<3, 6, 6, 4>>, <<6, 3, 6, 4>>, <<4, 4, 4, 8>>, <<3, 8, 8>>, <<2, 12, 2, 12>>, <<3, 4, 3, 2, 2>> }
+
 \* ------------------------------------------------------------------ theorems about the specification
 \* (1) matching => every unfolding (any split of the modes into rows | columns) is a generalised
 \*     permutation matrix: the sub-tuples on either side are pairwise different
@@ -332,10 +389,33 @@ AlgCfgs(shape) ==
                                 r \in (IF N = 2 THEN {<<1, 1>>} ELSE TTRankVecs(Merged(shape)))} ELSE {})
     \cup {[op |-> "tr", shape |-> shape, rank |-> r, mode |-> m] : r \in TRRankVecs(shape), m \in 0..(N - 1)}
 
+AlgCfgsG(shape) ==        \* rank configurations of the graded tier (smaller rank ranges)
+    LET N == Len(shape) IN
+         {[op |-> "tucker", shape |-> shape, rank |-> r, mode |-> 0] : r \in [1..N -> 1..3]}
+    \cup {[op |-> "tt", shape |-> shape, rank |-> r, mode |-> 0] : r \in TTRankVecs(shape)}
+    \cup (IF (N % 2) = 0 THEN {[op |-> "ttm", shape |-> shape, rank |-> r, mode |-> 0] : r \in TTRankVecs(Merged(shape))} ELSE {})
+    \cup {[op |-> "tr", shape |-> shape, rank |-> r \o <<r[1]>>, mode |-> m] : r \in [1..N -> 1..2], m \in 0..(N - 1)}
+    \cup {[op |-> "tr", shape |-> shape, rank |-> <<1>> \o [k \in 1..(N - 1) |-> 3] \o <<1>>, mode |-> m] : m \in 0..(N - 1)}
+
+\* graded spectra on which the consistency of the level arithmetic is checked
+GradedMenus == { << <<5, 0>>, <<3, -20>> >>, << <<3, 0>>, <<2, -30>> >>, << <<5, 0>>, <<3, -20>>, <<2, -30>> >>,
+                 << <<2, 0>>, <<2, 0>>, <<1, -30>> >>, << <<5, 0>>, <<3, 0>>, <<2, -20>>, <<1, -30>> >> }
+GradedCfgOK(c) ==
+    /\ CfgOK(c)
+    /\ ~Raises(c) => \A d \in GradedMenus :
+          LET lo == LowerVec(c, d)  up == UpperVec(c, d)
+              model == IF NUnf(c) = 0 THEN ZeroVec ELSE TailVec(d, Kept(c)) IN
+          /\ \A l \in LevelSet : lo[l] <= model[l] /\ model[l] <= up[l]            \* level by level
+          /\ (IsZeroVec(up) => IsZeroVec(lo))
+          /\ (~IsZeroVec(up) => /\ AtLevel(up, LeadLevel(up)) >= up[LeadLevel(up)] * Scale
+                                 /\ AtLevel(up, LeadLevel(up)) <= (up[LeadLevel(up)] + 1) * Scale)
+          /\ ((\A j \in 1..NUnf(c) : UpperRank(c, j) >= Len(d)) => IsZeroVec(up))
+
 VARIABLE cfg
 NoCfg == [op |-> "none"]
 Init == \/ cfg \in {[op |-> "shapeT", shape |-> s] : s \in ShapeSet}      \* -> matching tensors of that shape
         \/ cfg \in {[op |-> "shapeC", shape |-> s] : s \in ShapeSet}      \* -> rank configurations of that shape
+        \/ cfg \in {[op |-> "shapeG", shape |-> s] : s \in GradedShapes}  \* -> rank configurations of the graded tier
         \/ cfg = [op |-> "options", svds |-> Svds, iters |-> Iters, dtypes |-> Dtypes, rankspecs |-> RankSpecs, pow2s |-> Pow2s,
                  vias |-> Vias, fractions |-> Fractions]
 Next == \/ /\ cfg.op = "shapeT"
@@ -345,7 +425,9 @@ Next == \/ /\ cfg.op = "shapeT"
            /\ cfg' \in {[op |-> "matching", shape |-> cfg.shape, idx |-> cfg.idx, vals |-> v] : v \in SignedVals(Len(cfg.idx))}
         \/ /\ cfg.op = "shapeC"
            /\ cfg' \in AlgCfgs(cfg.shape)
+        \/ /\ cfg.op = "shapeG"
+           /\ cfg' \in AlgCfgsG(cfg.shape)
 Spec == Init /\ [][Next]_cfg
 SpecOK == /\ cfg.op = "matching" => MatchingOK(cfg)
-          /\ cfg.op \in Algs => CfgOK(cfg)
+          /\ cfg.op \in Algs => (IF cfg.shape \in GradedShapes THEN GradedCfgOK(cfg) ELSE CfgOK(cfg))
 =============================================================================
